@@ -302,6 +302,15 @@ def reuse_family():
         yield [i, B.I("DUP1"), B.I("DUP1"), B.I("ADD"), B.I("ADD")]
         yield [i, B.I("DUP1"), B.I("MSTORE")]
         yield [i, B.I("SWAP1"), i, B.I("ADD"), B.I("ADD")]
+    # two independent trade-offs in one block (one better in gas, one better in size): ties in one criterion that
+    # move the other criteria in opposite directions
+    for z in ("SELFBALANCE", "ADDRESS", "CALLER", "PUSHSIZE"):
+        for v in (0x1234, 0xFF, (1 << 200) + 1, 0):
+            i = B.I(z)
+            yield [i, B.I("DUP1"), B.P(v), B.P(v)]
+            yield [i, i, B.P(v), B.I("DUP1")]
+            yield [i, B.I("DUP1"), B.P(v), B.P(v), B.I("ADD"), B.I("ADD"), B.I("ADD")]
+            yield [B.P(v), B.P(v), i, B.I("DUP1"), B.I("MSTORE"), B.I("MSTORE")]
     for v in (0, 1, 0xFF, 0xFFFF, 0xFFFFFFFF, E.MASK):
         yield [B.P(v), B.I("DUP1"), B.I("ADD")]
         yield [B.P(v), B.P(v), B.I("ADD")]
